@@ -130,9 +130,14 @@ theorem C01_json_struct_fields (fs : Fields) (vs : List Val) (acc ms : List (Str
 
 /-- a typed byte array held *by value* is encoded as an object but can never be decoded
 (known finding `typed-bytes-by-value`). -/
-theorem C01_json_typed_bytes_by_value_witness (n : Option Nat) (code : Nat) (key : String) (j : Json) :
+theorem C01_json_typed_bytes_by_value_witness (n : Option Nat) (code : Nat) (key : String) (v : Val)
+    (j : Json) (h : mapEncode fc o (.typedBytes false n code key) v = .ok j) :
     mapDecode fc o (.typedBytes false n code key) j = .error .err := by
-  cases n <;> simp [mapDecode]
+  have hobj : ∃ ms, j = .obj ms := by
+    simp only [mapEncode, encTypedBytes] at h
+    split at h <;> (try split at h) <;> (try split at h) <;> simp at h <;> exact ⟨_, h.symm⟩
+  obtain ⟨ms, rfl⟩ := hobj
+  cases n <;> simp [mapDecode, asStr, bind, Except.bind]
 
 /-- `*[n]byte` without object code is encoded as a hex string but can never be decoded
 (known finding `ptr-to-untyped-byte-array`). -/
